@@ -163,6 +163,9 @@ type Interp struct {
 	race      *raceReport
 	raceOn    bool
 	hostLog   []string
+	schedRec   bool      // record the order of visible operations (native schedule replay)
+	schedTrace []SchedEv
+	nsrNext    int
 	ext       map[string]interface{}
 }
 
